@@ -17,6 +17,23 @@ STORE_STUB = {
 }
 
 CHECKS = {
+    "C16": {
+        "level": "exploration",
+        "budget": {"quick": 75, "thorough": 1200},
+        "rule": ("one evaluation = one generated directory tree with ground truth (nested packages, several files per package, methods, closures, generic instances, files named like "
+                 "tests, hidden and vendor directories, broken / ill-typed / oversize files) analysed by check (strict or not, with or without scan) or scan through the simulated "
+                 "FileSystem seam inside a synctest bubble with a tape-driven worker schedule; the fault configuration injects EIO / EACCES / ENOENT / oversize / vanished-file "
+                 "faults per call and unreadable directories during the walk. Non-trivial = fault-free run, or a run in which at least one fault fired; distinct = distinct "
+                 "(tree, command, options, schedule, fired faults)."),
+        "jobs": [
+            {"engine": "clisim-coverage", "bin": "cli", "test": "TestVerifC16", "cfg": {"faults": "off"}, "cpu": 4, "weight": 1},
+            {"engine": "clisim-coverage", "bin": "cli", "test": "TestVerifC16", "cfg": {"faults": "on"}, "cpu": 4, "weight": 2},
+        ],
+        "assumptions": ["a warning on stderr that names the path counts as 'reported'; the strict-mode clause has no such latitude",
+                        "the converse (strict failing although everything was analysed) is not demanded"],
+        "real_vs_stub": {"code_under_test": "real (internal/cli, pkg/diff, pkg/analysis; instrumented R1,R2)", "go_packages_loader": "real (go list child process)",
+                         "disk": "real temp tree behind the fault-injecting simulated FileSystem seam", "worker_scheduling": "simulated (synctest bubble)"},
+    },
     "C10": {
         "level": "exploration",
         "budget": {"quick": 75, "thorough": 1200},
@@ -132,10 +149,17 @@ NOT_APPLICABLE = {
     "C20": "path-refusal is a pure function of a path spelling and a static symlink layout; " + PURE,
     # claimed in DESIGN.md, harness not finished yet (moved to checks as each lands):
     "C01": "PENDING: fpsim harness (pooled canonicaliser + map-order + concurrent callers) not yet built in this revision",
-    "C16": "PENDING: clisim fault-injection harness not yet built in this revision",
 }
 
 MANIFEST_TEXT = {
+    "C16": {
+        "engine": "clisim",
+        "technique": "deterministic simulation with fault injection at the FileSystem seam (EIO/EACCES/ENOENT/oversize/unreadable directories) under a tape-driven worker schedule; coverage and strict-mode invariants against generated ground truth",
+        "design_ref": "DESIGN.md §3 C16",
+        "level_text": ("Seeded search over generated trees, worker schedules and file-system fault sequences; a fault-free configuration checks complete coverage against ground truth, the fault "
+                       "configuration checks that every file is either analysed completely or reported, and that strict mode fails whenever something was not analysed."),
+        "level_note": "Trusts: the ground truth computed with go/parser, the fault-injecting FileSystem wrapper's fidelity to filepath.WalkDir / os errors.",
+    },
     "C10": {
         "engine": "clisim",
         "technique": "deterministic simulation: synctest bubble with a tape-driven release order of worker goroutines, controlled map-iteration order (AST-instrumented) and simulated pool; byte equality of reports across schedules",
